@@ -372,7 +372,7 @@ async fn e2e_push_case(c: &E2eCase, client_scheme: &Scheme, tport: u16) -> Resul
     let r = async {
         let mut recs = Vec::new();
         for round in 0..2usize {
-            let (stream, session) = tokio::time::timeout(Duration::from_secs(30), client.create_proxy_stream((c.host.clone(), tport))).await.map_err(|_| "open did not return in 30 s".to_string())?.map_err(|e| format!("open failed: {e}"))?;
+            let (stream, session) = tokio::time::timeout(Duration::from_secs(10), client.create_proxy_stream((c.host.clone(), tport))).await.map_err(|_| "open did not return in 10 s".to_string())?.map_err(|e| format!("open failed: {e}"))?;
             let chunks: &[usize] = if round == 0 { &c.chunks[..1] } else { &c.chunks };
             for (i, n) in chunks.iter().enumerate() {
                 let data: Vec<u8> = (0..*n).map(|j| (j as u8) ^ (i as u8).wrapping_mul(37)).collect();
@@ -410,7 +410,7 @@ async fn e2e_case(c: &E2eCase, tport: u16) -> Result<E2eOut, String> {
     let relay = netkit::start_rec_relay(server_addr).await.ok_or("cannot start relay")?;
     let client = netkit::make_client(&relay.addr, netkit::PASSWORD, padding, anytls_rs::client::SessionPoolConfig { check_interval: Duration::from_secs(3600), idle_timeout: Duration::from_secs(7200), min_idle_sessions: 0 });
     let r = async {
-        let (stream, session) = tokio::time::timeout(Duration::from_secs(30), client.create_proxy_stream((c.host.clone(), tport))).await.map_err(|_| "open did not return in 30 s".to_string())?.map_err(|e| format!("open failed: {e}"))?;
+        let (stream, session) = tokio::time::timeout(Duration::from_secs(10), client.create_proxy_stream((c.host.clone(), tport))).await.map_err(|_| "open did not return in 10 s".to_string())?.map_err(|e| format!("open failed: {e}"))?;
         tokio::time::sleep(Duration::from_millis(40)).await;
         let rec = relay.conns.lock().unwrap().first().cloned().ok_or("relay saw no connection")?;
         let s2c_mark = rec.s2c.lock().unwrap().len();
@@ -530,11 +530,18 @@ pub fn run_e2e(ctx: Ctx) -> Report {
             cases.push(E2eCase { idx, client_scheme, scheme, host, chunks });
         }
         let results: Arc<Mutex<Vec<(E2eCase, Result<E2eOut, String>)>>> = Arc::new(Mutex::new(Vec::new()));
+        // a tree on which the opens do not come back must not turn this part into hours of time-outs
+        let budget = std::time::Duration::from_secs(if n <= 200 { 60 } else { 900 });
+        let t_start = std::time::Instant::now();
         {
             let results = results.clone();
             netkit::for_each_limited(cases, 8, move |c| {
                 let results = results.clone();
                 async move {
+                    if t_start.elapsed() > budget {
+                        results.lock().unwrap().push((c, Err("time budget of the end-to-end part used up".into())));
+                        return;
+                    }
                     let port = if c.host == "::1" { p6 } else { p4 };
                     let r = match &c.client_scheme {
                         None => e2e_case(&c, port).await,
